@@ -167,8 +167,9 @@ func cmdKenforceChild() {
 	//   +race  another OS thread loads a different policy at the same time; the two LoadFilter calls are made to overlap
 	//          between their prctl and seccomp steps (schedule-point hook)
 	other := seccomp.Policy{DefaultAction: seccomp.ActionAllow, Syscalls: []seccomp.SyscallGroup{{Action: seccomp.ActionErrno,
-		NamesWithCondtions: []seccomp.NameWithConditions{{Name: "getpgrp", Conditions: []seccomp.Condition{{Argument: 0, Operation: seccomp.Equal, Value: 0x7777000077770000}}},
-			{Name: "getegid", Conditions: []seccomp.Condition{{Argument: 1, Operation: seccomp.BitsSet, Value: 0x7777000077770000}, {Argument: 2, Operation: seccomp.LessThan, Value: 3}}}}}}}
+		NamesWithCondtions: []seccomp.NameWithConditions{
+			{Name: "getpgrp", Conditions: []seccomp.Condition{{Argument: 0, Operation: seccomp.Equal, Value: 0x7777000077770000}, {Argument: 1, Operation: seccomp.Equal, Value: 0x1234567812345678}}},
+			{Name: "getegid", Conditions: []seccomp.Condition{{Argument: 1, Operation: seccomp.Equal, Value: 0x7777000077770001}, {Argument: 2, Operation: seccomp.Equal, Value: 0x1234567812345679}}}}}}}
 	if strings.Contains(c.prober, "+div") {
 		ok := make(chan error)
 		go func() {
@@ -177,6 +178,13 @@ func cmdKenforceChild() {
 			select {} // keeps its filter for the life of the process
 		}()
 		if err := <-ok; err != nil {
+			os.Exit(5)
+		}
+	}
+	//   +twice the loading thread has loaded another (practically never matching) filter before: the load under test
+	//          is the second one of this thread and must be installed as well
+	if strings.Contains(c.prober, "+twice") {
+		if err := seccomp.LoadFilter(seccomp.Filter{NoNewPrivs: true, Flag: seccomp.FilterFlag(c.flags & 1), Policy: other}); err != nil {
 			os.Exit(5)
 		}
 	}
